@@ -6,9 +6,9 @@
    corrected p-values in rank order); order preservation; rejected <-> pvalue_adj <= alpha for BH, BY,
    Hochberg-Bonferroni and Holm-Bonferroni; range for BH/BY; order independence - the adjusted p-value and the rejection
    flag of a hypothesis depend only on its own p-value and the multiset of all p-values, ties included - for BH, BY,
-   Hochberg-Bonferroni and Holm-Bonferroni (proofs/C10_perm.v).  NOT proved (validated by the oracle only, see DESIGN.md):
-   the Sidak equivalence and order independence for Sidak (need monotonicity of real powers), purity of _copy_results;
-   alpha_adj is NOT order independent at ties (known finding). *)
+   Hochberg-/Holm-Bonferroni and Hochberg-/Holm-Sidak (proofs/C10_perm.v); the Sidak equivalence rejected <-> pvalue_adj
+   <= alpha for p-values in [0, 1] (real powers: Rpower).  NOT proved (validated by the oracle only, see DESIGN.md):
+   purity of _copy_results; alpha_adj is NOT order independent at ties (known finding). *)
 From Coq Require Import Reals List Arith Bool Lra Sorted.
 From Coq Require Import Permutation.
 From TT Require Import lib.PreludeR lib.Loop genR.Multiplicity proofs.C10_loop proofs.C10_multiplicity proofs.C10_perm.
@@ -118,6 +118,28 @@ Theorem C10_holm_bonferroni_order_independent alpha ps ps' j j' p : 0 < alpha < 
   fst (fst o) = fst (fst o') /\ snd o = snd o'.
 Proof. exact (holm_bonferroni_order_independent alpha ps ps' j j' p). Qed.
 
+(* Sidak (p-values that are probabilities) *)
+Theorem C10_hochberg_sidak_rejected_iff_padj alpha ps j : 0 < alpha < 1 -> Forall unit_p ps -> (j < length ps)%nat ->
+  let o := nth j (hochberg_stepup (sidak_adjust (mk_sidak alpha (INR (length ps)))) ps) dflt in
+  snd o = true <-> fst (fst o) <= alpha.
+Proof. exact (hochberg_sidak_rejected_iff_padj_input alpha ps j). Qed.
+Theorem C10_holm_sidak_rejected_iff_padj alpha ps j : 0 < alpha < 1 -> Forall unit_p ps -> (j < length ps)%nat ->
+  let o := nth j (holm_stepdown (sidak_adjust (mk_sidak alpha (INR (length ps)))) ps) dflt in
+  snd o = true <-> fst (fst o) <= alpha.
+Proof. exact (holm_sidak_rejected_iff_padj_input alpha ps j). Qed.
+Theorem C10_hochberg_sidak_order_independent alpha ps ps' j j' p : 0 < alpha < 1 -> Permutation ps ps' -> Forall unit_p ps ->
+  nth_error ps j = Some p -> nth_error ps' j' = Some p ->
+  let o := nth j (hochberg_stepup (sidak_adjust (mk_sidak alpha (INR (length ps)))) ps) dflt in
+  let o' := nth j' (hochberg_stepup (sidak_adjust (mk_sidak alpha (INR (length ps')))) ps') dflt in
+  fst (fst o) = fst (fst o') /\ snd o = snd o'.
+Proof. exact (hochberg_sidak_order_independent alpha ps ps' j j' p). Qed.
+Theorem C10_holm_sidak_order_independent alpha ps ps' j j' p : 0 < alpha < 1 -> Permutation ps ps' -> Forall unit_p ps ->
+  nth_error ps j = Some p -> nth_error ps' j' = Some p ->
+  let o := nth j (holm_stepdown (sidak_adjust (mk_sidak alpha (INR (length ps)))) ps) dflt in
+  let o' := nth j' (holm_stepdown (sidak_adjust (mk_sidak alpha (INR (length ps')))) ps') dflt in
+  fst (fst o) = fst (fst o') /\ snd o = snd o'.
+Proof. exact (holm_sidak_order_independent alpha ps ps' j j' p). Qed.
+
 Print Assumptions C10_stepup_flag.
 Print Assumptions C10_stepdown_flag.
 Print Assumptions C10_stepup_processes_sorted_family.
@@ -137,3 +159,7 @@ Print Assumptions C10_benjamini_range.
 Print Assumptions C10_bh_by_order_independent.
 Print Assumptions C10_hochberg_bonferroni_order_independent.
 Print Assumptions C10_holm_bonferroni_order_independent.
+Print Assumptions C10_hochberg_sidak_rejected_iff_padj.
+Print Assumptions C10_holm_sidak_rejected_iff_padj.
+Print Assumptions C10_hochberg_sidak_order_independent.
+Print Assumptions C10_holm_sidak_order_independent.
